@@ -23,6 +23,13 @@ import tempfile
 import simrun
 import vlib
 
+# scratch build trees of VERIF_REPO copies are named alt_<hash> by vlib; other checks' clean-up removes
+# `alt_*` wholesale, also under a running check, so this check keeps its own name for the copy's tree
+if vlib.REPO != "/repo" and os.path.basename(vlib.BUILD).startswith("alt_"):
+    vlib.BUILD = os.path.join(vlib.VERIF, ".build", "c01" + os.path.basename(vlib.BUILD))
+    vlib.BIN = os.path.join(vlib.BUILD, "bin")
+    vlib.FULL = os.path.join(vlib.BUILD, "full")
+
 # ----------------------------------------------------------------------------------------------
 # configuration generator (parameter file of a small task-based photoionization run)
 
